@@ -145,21 +145,38 @@ func decodeSlice(b []byte, val reflect.Value, name string) (int, error) {
 
 	pos := buf.Pos()
 	// a is a slice of []*Foo
-	a := reflect.MakeSlice(val.Type(), int(n), int(n))
+	//
+	// The length prefix comes from the wire and is not trusted: the slice
+	// grows while the elements are decoded, so that a few bytes cannot force
+	// the allocation of n elements. The initial capacity is bounded by the
+	// number of remaining bytes.
+	capHint := int(n)
+	if rem := len(b) - pos; capHint > rem {
+		capHint = rem
+	}
+	a := reflect.MakeSlice(val.Type(), 0, capHint)
 	for i := 0; i < int(n); i++ {
+		// only elements with an empty encoding can outnumber the bytes of
+		// the buffer. Do not let them grow without bounds either.
+		if i > len(b) {
+			return pos, errors.Errorf("array too large: %d elements in %d bytes", n, len(b))
+		}
+
+		elem := reflect.New(elemType).Elem()
 
 		// if the slice elements are pointers we need to create
 		// them before we can marshal data into them.
 		if elemType.Kind() == reflect.Ptr {
-			a.Index(i).Set(reflect.New(elemType.Elem()))
+			elem.Set(reflect.New(elemType.Elem()))
 		}
 
 		ename := fmt.Sprintf("%s[%d]", name, i)
-		m, err := decode(b[pos:], a.Index(i), ename)
+		m, err := decode(b[pos:], elem, ename)
 		if err != nil {
 			return pos, err
 		}
 		pos += m
+		a = reflect.Append(a, elem)
 	}
 	val.Set(a)
 
